@@ -22,7 +22,8 @@ class Contract:
         self.properties = kw.pop('properties', [])
         self.verify = kw.pop('verify', True)         # False: assumed (trusted) contract, only used at call sites
         self.use_at_calls = kw.pop('use_at_calls', True)
-        self.ghost = kw.pop('ghost', None)           # callable(ex, st, args) at call sites
+        self.ghost = kw.pop('ghost', None)
+        self.ghost_exc = kw.pop('ghost_exc', None)     # callable(ex, st, env, cls) on exceptional outcomes at call sites           # callable(ex, st, args) at call sites
         self.setup = kw.pop('setup', None)           # callable(ex, st, args) -> None, extra entry assumptions / ghost init
         self.captures = kw.pop('captures', {})       # for closures: captured variable types
         self.pure = kw.pop('pure', False)
@@ -33,6 +34,7 @@ class Contract:
         self.inline_depth = kw.pop('inline_depth', 4)
         self.trusted_reason = kw.pop('trusted_reason', '')
         self.loop_steps = kw.pop('loop_steps', {})
+        self.loop_entry = kw.pop('loop_entry', {})
         self.local_types = kw.pop('local_types', {})
         self.hints = kw.pop('hints', {})
         self.yields = kw.pop('yields', None)         # type of the value delivered at `x = yield`
